@@ -9,6 +9,8 @@ import TFV.Lemmas.ArithExact
 import TFV.Lemmas.Inv
 import TFV.Lemmas.Conv
 import TFV.Properties.C07
+import TFV.Properties.C08
+import TFV.Properties.C01
 
 set_option exponentiation.threshold 3000
 
@@ -113,5 +115,849 @@ theorem is_valid_pf {t : TwoFloat} (h : t.WF) : TwoFloat.is_valid.pf t = true :=
 
 theorem tcmp_pf {a b : TwoFloat} (ha : a.WF) (hb : b.WF) :
     base.impl_PartialOrd_TwoFloat_for_TwoFloat.partial_cmp.pf a b = true := Conv.tcmp_pf_of_WF a b ha hb
+
+/-! ## Part 2: machine-integer facts -/
+
+theorem ilt_iff {s : Bool} {b : Nat} (x y : IntN s b) : (x <. y) = true ↔ x.v < y.v := by
+  show (match (some (if x.v < y.v then ROrdering.Less else if x.v = y.v then .Equal else .Greater) :
+      Option ROrdering) with | some .Less => true | _ => false) = true ↔ _
+  by_cases h1 : x.v < y.v
+  · rw [if_pos h1]; simp [h1]
+  · by_cases h2 : x.v = y.v
+    · rw [if_neg h1, if_pos h2]; simp [h1]
+    · rw [if_neg h1, if_neg h2]; simp [h1]
+
+theorem igt_iff {s : Bool} {b : Nat} (x y : IntN s b) : (x >. y) = true ↔ y.v < x.v := by
+  show (match (some (if x.v < y.v then ROrdering.Less else if x.v = y.v then .Equal else .Greater) :
+      Option ROrdering) with | some .Greater => true | _ => false) = true ↔ _
+  by_cases h1 : x.v < y.v
+  · rw [if_pos h1]; simp; omega
+  · by_cases h2 : x.v = y.v
+    · rw [if_neg h1, if_pos h2]; simp; omega
+    · rw [if_neg h1, if_neg h2]; simp; omega
+
+theorem ile_iff {s : Bool} {b : Nat} (x y : IntN s b) : (x <=. y) = true ↔ x.v ≤ y.v := by
+  show (match (some (if x.v < y.v then ROrdering.Less else if x.v = y.v then .Equal else .Greater) :
+      Option ROrdering) with | some .Less => true | some .Equal => true | _ => false) = true ↔ _
+  by_cases h1 : x.v < y.v
+  · rw [if_pos h1]; simp; omega
+  · by_cases h2 : x.v = y.v
+    · rw [if_neg h1, if_pos h2]; simp; omega
+    · rw [if_neg h1, if_neg h2]; simp; omega
+
+theorem inRange_i32 (z : Int) (h0 : -2147483648 ≤ z) (h1 : z ≤ 2147483647) :
+    IntN.inRange (⟨z⟩ : I32) = true := by
+  show IntN.fits true 32 z = true
+  rw [IntN.fits_iff, IntN.minV_eq, IntN.maxV_eq]
+  have : ((2 ^ IntN.K true 32 : Nat) : Int) = 2147483648 := by decide
+  rw [this]; simp only [if_true]; omega
+
+theorem inRange_usize (z : Int) (h0 : 0 ≤ z) (h1 : z ≤ 18446744073709551615) :
+    IntN.inRange (⟨z⟩ : Usize) = true := by
+  show IntN.fits false 64 z = true
+  rw [IntN.fits_iff, IntN.minV_eq, IntN.maxV_eq]
+  have : ((2 ^ IntN.K false 64 : Nat) : Int) = 18446744073709551616 := by decide
+  rw [this]; simp only [Bool.false_eq_true, if_false]; omega
+
+theorem cast_i32_usize (z : Int) (h0 : 0 ≤ z) (h1 : z ≤ 2147483647) :
+    (RCast.cast (⟨z⟩ : I32) : Usize) = ⟨z⟩ := by
+  show (⟨IntN.wrapV false 64 z⟩ : Usize) = ⟨z⟩
+  unfold IntN.wrapV
+  have : ((2 ^ 64 : Nat) : Int) = 18446744073709551616 := by decide
+  simp only [this, Bool.false_and, Bool.false_eq_true, if_false]
+  congr 1; omega
+
+theorem inBounds_list {α : Type} [Inhabited α] (l : List α) (i : Usize) (h0 : 0 ≤ i.v)
+    (h1 : i.v < (l.length : Int)) : RIndex.inBounds l i = true := by
+  show (decide (0 ≤ i.v) && decide (i.v.toNat < l.length)) = true
+  simp only [Bool.and_eq_true, decide_eq_true_eq]
+  omega
+
+theorem go_pf_nonneg (fuel : Nat) (v : Int) (h0 : 0 ≤ v) (h1 : v < 1440) :
+    explog.exp_half.go.pf (fuel+1) (⟨v⟩ : I32) = true := by
+  simp only [explog.exp_half.go.pf]
+  have hlt : ((⟨v⟩ : I32) <. (1440 : I32)) = true := (ilt_iff _ _).2 h1
+  have hneg : (⟨v⟩ : I32).is_negative = false := by
+    show decide (v < 0) = false
+    simp; omega
+  have hd : ((⟨v⟩ : I32) /. (32 : I32)) = ⟨v / 32⟩ := by
+    show (⟨Int.tdiv v 32⟩ : I32) = _
+    rw [Int.tdiv_eq_ediv_of_nonneg h0]
+  have hm : ((⟨v⟩ : I32) %. (32 : I32)) = ⟨v % 32⟩ := by
+    show (⟨Int.tmod v 32⟩ : I32) = _
+    rw [Int.tmod_eq_emod_of_nonneg h0]
+  have hA0 : 0 ≤ v / 32 := by omega
+  have hA1 : v / 32 ≤ 44 := by omega
+  have hB0 : 0 ≤ v % 32 := by omega
+  have hB1 : v % 32 ≤ 31 := by omega
+  rw [hlt, hneg]
+  simp only [Bool.true_and]
+  rw [hd, hm, cast_i32_usize _ hA0 (by omega), cast_i32_usize _ hB0 (by omega),
+    inRange_i32 (v / 32) (by omega) (by omega), inRange_i32 (v % 32) (by omega) (by omega)]
+  generalize v / 32 = A at *
+  generalize v % 32 = B at *
+  have h32 : ((32 : I32) !=. (0 : I32)) = true := by decide
+  rw [h32]
+  simp only [Bool.true_and, Bool.false_eq_true, if_false]
+  have l16 : (explog.exp_half.EXP_16_N.length : Int) = 44 := by decide
+  have lh : (explog.exp_half.EXP_HALF_N.length : Int) = 31 := by decide
+  have pa : (0 : Int) < A →
+      ((((⟨A⟩ : Usize) -. (1 : Usize)).inRange && RIndex.inBounds explog.exp_half.EXP_16_N ((⟨A⟩ : Usize) -. (1 : Usize)))
+        && ((⟨A⟩ : Usize) -. (1 : Usize)).inRange) = true := by
+    intro hA
+    have e : ((⟨A⟩ : Usize) -. (1 : Usize)) = ⟨A - 1⟩ := rfl
+    rw [e, inRange_usize _ (by omega) (by omega), inBounds_list _ _ (by show 0 ≤ A - 1; omega)
+      (by rw [l16]; show A - 1 < 44; omega)]
+    rfl
+  have pb : (0 : Int) < B →
+      ((((⟨B⟩ : Usize) -. (1 : Usize)).inRange && RIndex.inBounds explog.exp_half.EXP_HALF_N ((⟨B⟩ : Usize) -. (1 : Usize)))
+        && ((⟨B⟩ : Usize) -. (1 : Usize)).inRange) = true := by
+    intro hB
+    have e : ((⟨B⟩ : Usize) -. (1 : Usize)) = ⟨B - 1⟩ := rfl
+    rw [e, inRange_usize _ (by omega) (by omega), inBounds_list _ _ (by show 0 ≤ B - 1; omega)
+      (by rw [lh]; show B - 1 < 31; omega)]
+    rfl
+  cases hA : ((⟨A⟩ : Usize) >. (0 : Usize)) <;> cases hB : ((⟨B⟩ : Usize) >. (0 : Usize))
+  · rfl
+  · exact pb ((igt_iff _ _).1 hB)
+  · exact pa ((igt_iff _ _).1 hA)
+  · show (_ && _) = true
+    rw [pa ((igt_iff _ _).1 hA), pb ((igt_iff _ _).1 hB)]; rfl
+
+theorem exp_half_pf (n : I32) (h : n.v.natAbs ≤ 1439) : explog.exp_half.pf n = true := by
+  obtain ⟨v⟩ := n
+  have h' : v.natAbs ≤ 1439 := h
+  by_cases hv : 0 ≤ v
+  · exact go_pf_nonneg 1 v hv (by omega)
+  · show explog.exp_half.go.pf 2 (⟨v⟩ : I32) = true
+    simp only [explog.exp_half.go.pf]
+    have hlt : ((⟨v⟩ : I32) <. (1440 : I32)) = true := (ilt_iff _ _).2 (by show v < 1440; omega)
+    have hneg : (⟨v⟩ : I32).is_negative = true := by
+      show decide (v < 0) = true
+      simp; omega
+    have e : (⟨v⟩ : I32).neg = ⟨-v⟩ := rfl
+    rw [hlt, hneg, e, inRange_i32 _ (by omega) (by omega)]
+    simp only [Bool.true_and, if_true]
+    have := go_pf_nonneg 0 (-v) (by omega) (by omega)
+    simpa [explog.exp_half.go.pf] using this
+theorem expm1_128th_pf (n : I32) (h : n.v.natAbs ≤ 32) : explog.expm1_128th.pf n = true := by
+  obtain ⟨v⟩ := n
+  have h' : v.natAbs ≤ 32 := h
+  unfold explog.expm1_128th.pf
+  have e1 : IntN.abs (⟨v⟩ : I32) = ⟨(v.natAbs : Int)⟩ := rfl
+  have e2 : ((⟨v⟩ : I32) +. (32 : I32)) = ⟨v + 32⟩ := rfl
+  have hl : (explog.expm1_128th.EXPM1_128TH.length : Int) = 65 := by decide
+  rw [e1, e2, inRange_i32 _ (by omega) (by omega), inRange_i32 _ (by omega) (by omega),
+    (ile_iff _ _).2 (by show (v.natAbs : Int) ≤ 32; omega), cast_i32_usize _ (by omega) (by omega),
+    inBounds_list _ _ (by show 0 ≤ v + 32; omega) (by rw [hl]; show v + 32 < 65; omega)]
+  rfl
+
+/-- `mul_pow2`'s loop: enough fuel for every `i32` exponent -/
+theorem mul_pow2_loop_pf : ∀ (fuel : Nat) (x : F64) (v : Int), -2147483648 ≤ v → v ≤ 2147483647 →
+    v.natAbs / 1023 + 1 ≤ fuel → explog.mul_pow2.loop1.pf fuel x (⟨v⟩ : I32) = true := by
+  intro fuel
+  induction fuel with
+  | zero => intro x v _ _ h; omega
+  | succ fuel ih =>
+    intro x v h0 h1 hf
+    simp only [explog.mul_pow2.loop1.pf]
+    by_cases c1 : v < -1074
+    · rw [if_pos ((ilt_iff (⟨v⟩ : I32) (-1074 : I32)).2 c1)]
+      have e : ((⟨v⟩ : I32) +. (1074 : I32)) = ⟨v + 1074⟩ := rfl
+      rw [e, inRange_i32 _ (by omega) (by omega), ih _ _ (by omega) (by omega) (by omega)]
+      rfl
+    · have n1 : ¬ ((⟨v⟩ : I32) <. (-1074 : I32)) = true := fun hc => c1 ((ilt_iff _ _).1 hc)
+      rw [if_neg n1]
+      by_cases c2 : v < -1022
+      · rw [if_pos ((ilt_iff (⟨v⟩ : I32) (-1022 : I32)).2 c2)]
+        have e : ((⟨v⟩ : I32) +. (1074 : I32)) = ⟨v + 1074⟩ := rfl
+        rw [e, inRange_i32 _ (by omega) (by omega),
+          (ile_iff (0 : I32) ⟨v + 1074⟩).2 (by show (0 : Int) ≤ v + 1074; omega),
+          (ilt_iff (⟨v + 1074⟩ : I32) (64 : I32)).2 (by show v + 1074 < 64; omega)]
+        rfl
+      · have n2 : ¬ ((⟨v⟩ : I32) <. (-1022 : I32)) = true := fun hc => c2 ((ilt_iff _ _).1 hc)
+        rw [if_neg n2]
+        by_cases c3 : v < 1024
+        · rw [if_pos ((ilt_iff (⟨v⟩ : I32) (1024 : I32)).2 c3)]
+          have e : ((⟨v⟩ : I32) +. (1023 : I32)) = ⟨v + 1023⟩ := rfl
+          rw [e, inRange_i32 _ (by omega) (by omega)]
+        · have n3 : ¬ ((⟨v⟩ : I32) <. (1024 : I32)) = true := fun hc => c3 ((ilt_iff _ _).1 hc)
+          rw [if_neg n3]
+          have e : ((⟨v⟩ : I32) -. (1023 : I32)) = ⟨v - 1023⟩ := rfl
+          rw [e, inRange_i32 _ (by omega) (by omega), ih _ _ (by omega) (by omega) (by omega)]
+          rfl
+
+/-- `mul_pow2` never panics: the loop terminates within its fuel for every in-range `i32` exponent -/
+theorem mul_pow2_pf (x : F64) (y : I32) (h : IntN.inRange y = true) : explog.mul_pow2.pf x y = true := by
+  obtain ⟨v⟩ := y
+  have h' : IntN.fits true 32 v = true := h
+  rw [IntN.fits_iff, IntN.minV_eq, IntN.maxV_eq] at h'
+  have : ((2 ^ IntN.K true 32 : Nat) : Int) = 2147483648 := by decide
+  rw [this] at h'
+  simp only [if_true] at h'
+  exact mul_pow2_loop_pf 2100000 x v (by omega) (by omega) (by omega)
+/-! ## Part 3: casts and roundings of doubles -/
+
+/-- `x as i32` saturates: the result is always in range -/
+theorem cast_f64_i32_inRange (x : F64) : IntN.inRange (RCast.cast x : I32) = true := by
+  show IntN.fits true 32 (F64.toIntSat true 32 x) = true
+  rw [IntN.fits_iff, IntN.minV_eq, IntN.maxV_eq]
+  have e : ((2 ^ IntN.K true 32 : Nat) : Int) = 2147483648 := by decide
+  simp only [if_true, e]
+  cases x with
+  | nan => show _ ≤ (0 : Int) ∧ (0 : Int) ≤ _; omega
+  | inf s =>
+    show _ ≤ (if s then IntN.minV true 32 else IntN.maxV true 32) ∧ (if s then IntN.minV true 32 else IntN.maxV true 32) ≤ _
+    rw [IntN.minV_eq, IntN.maxV_eq]; simp only [if_true, e]
+    cases s <;> simp
+  | fin s n =>
+    show _ ≤ (let t : Int := ((n / F64.unit : Nat) : Int)
+        let z := if s then -t else t
+        if z < IntN.minV true 32 then IntN.minV true 32 else if z > IntN.maxV true 32 then IntN.maxV true 32 else z) ∧
+      (let t : Int := ((n / F64.unit : Nat) : Int)
+        let z := if s then -t else t
+        if z < IntN.minV true 32 then IntN.minV true 32 else if z > IntN.maxV true 32 then IntN.maxV true 32 else z) ≤ _
+    simp only [IntN.minV_eq, IntN.maxV_eq, if_true, e]
+    split_ifs <;> omega
+
+/-- `x as i32` for an integer-valued double in range -/
+theorem cast_f64_i32 {x : F64} (hx : x.is_finite = true) {q : Int}
+    (hq : x.toInt = q * ((F64.unit : Nat) : Int)) (h : q.natAbs ≤ 2147483647) :
+    (RCast.cast x : I32) = ⟨q⟩ := by
+  show (⟨F64.toIntSat true 32 x⟩ : I32) = ⟨q⟩
+  have e : ((2 ^ IntN.K true 32 : Nat) : Int) = 2147483648 := by decide
+  rw [toIntSat_of_toInt true 32 hx hq (by rw [IntN.minV_eq]; simp only [if_true, e]; omega)
+    (by rw [IntN.maxV_eq, e]; omega)]
+
+/-- `round` then `trunc` then `as i32` of a double of magnitude at most `K` is an integer of magnitude at most `K` -/
+theorem round_trunc_cast (p : F64) (K : Nat) (hf : p.is_finite = true)
+    (hp : p.toInt.natAbs ≤ K * F64.unit) (hK : K ≤ 2147483647) :
+    ((RCast.cast (F64.trunc (F64.round p)) : I32).v).natAbs ≤ K := by
+  obtain ⟨s, n, rfl⟩ := is_finite_iff.mp hf
+  rw [natAbs_toInt_fin] at hp
+  obtain ⟨m, e, hm⟩ := C08.round_fin s n
+  rw [e]
+  have hU := F64.unit_pos
+  have hmK : m ≤ K * F64.unit := by
+    rcases hm with rfl | ⟨rfl, hne⟩
+    · exact le_trans (Nat.div_mul_le_self n _) hp
+    · have hlt : n / F64.unit < K := by
+        by_contra hc
+        have h1 : K * F64.unit ≤ n / F64.unit * F64.unit := Nat.mul_le_mul_right _ (by omega)
+        have h2 := Nat.div_mul_le_self n F64.unit
+        have h3 : n = K * F64.unit := by omega
+        apply hne
+        rw [h3, Nat.mul_div_cancel _ hU]
+      calc n / F64.unit * F64.unit + F64.unit = (n / F64.unit + 1) * F64.unit := by ring
+        _ ≤ K * F64.unit := Nat.mul_le_mul_right _ hlt
+  have hd : m / F64.unit ≤ K := Nat.div_le_of_le_mul (by rwa [Nat.mul_comm] at hmK)
+  show ((RCast.cast (fin s (m / F64.unit * F64.unit)) : I32).v).natAbs ≤ K
+  generalize m / F64.unit = d at hd ⊢
+  have hq : (fin s (d * F64.unit)).toInt
+      = (if s then -((d : Nat) : Int) else ((d : Nat) : Int)) * ((F64.unit : Nat) : Int) := by
+    rw [toInt_fin]; cases s <;> simp
+  rw [cast_f64_i32 rfl hq (by cases s <;> simp <;> omega)]
+  show (if s then -((d : Nat) : Int) else ((d : Nat) : Int)).natAbs ≤ K
+  cases s <;> simp <;> omega
+
+/-! ## Part 4: the exponential family -/
+
+theorem rle_eq (x y : F64) : (x <=. y) = F64.le x y := by
+  show (match F64.partial_cmp x y with | some .Less => true | some .Equal => true | _ => false) = _
+  unfold F64.le
+  rcases F64.partial_cmp x y with _ | o
+  · rfl
+  · cases o <;> rfl
+
+theorem rge_eq' (x y : F64) : (x >=. y) = F64.ge x y := by
+  show (match F64.partial_cmp x y with | some .Greater => true | some .Equal => true | _ => false) = _
+  unfold F64.ge
+  rcases F64.partial_cmp x y with _ | o
+  · rfl
+  · cases o <;> rfl
+
+theorem lit_quarter : f64lit 0x3fd0000000000000 = fin false (2 ^ 1072) := by decide +kernel
+theorem lit_128 : f64lit 0x4060000000000000 = fin false (128 * F64.unit) := by decide +kernel
+theorem lit_two : f64lit 0x4000000000000000 = fin false (2 * F64.unit) := by decide +kernel
+
+theorem unit_eq_4q : F64.unit = 4 * 2 ^ 1072 := by
+  rw [F64.unit_eq]; norm_num
+
+theorem maxFin_ge : 2 ^ 1090 ≤ maxFin := by
+  rw [maxFin_eq]
+  calc 2 ^ 1090 ≤ 1 * 2 ^ 2045 := by rw [one_mul]; exact Nat.pow_le_pow_right (by decide) (by decide)
+    _ ≤ (2 ^ 53 - 1) * 2 ^ 2045 := Nat.mul_le_mul_right _ (by decide)
+
+/-- `expm1_quarter` is panic-free when its precondition `|hi| ≤ 0.25` holds -/
+theorem expm1_quarter_pf (z : TwoFloat) (hf : z.hi.is_finite = true) (hw : z.hi.WF)
+    (hb : z.hi.toInt.natAbs ≤ 2 ^ 1072) : TwoFloat.expm1_quarter.pf z = true := by
+  unfold TwoFloat.expm1_quarter.pf TwoFloat.hi_m
+  have h1 : ((F64.abs z.hi) <=. (f64lit 0x3fd0000000000000)) = true := by
+    rw [rle_eq, lit_quarter, le_iff_toInt (by rw [is_finite_abs]; exact hf) rfl, toInt_abs]
+    show |z.hi.toInt| ≤ ((2 ^ 1072 : Nat) : Int)
+    exact abs_le_of_natAbs_le hb
+  rw [h1, Bool.true_and]
+  dsimp only
+  apply expm1_128th_pf
+  have hU : (F64.unit : Int) = 4 * 2 ^ 1072 := by exact_mod_cast unit_eq_4q
+  have hbI : |z.hi.toInt| ≤ 2 ^ 1072 := by
+    have := abs_le_of_natAbs_le hb; exact_mod_cast this
+  have hm : IsVal (F64.mul (f64lit 0x4060000000000000) z.hi) (z.hi.toInt * 2 ^ 7) := by
+    rw [lit_128]
+    have h128 : IsVal (fin false (128 * F64.unit)) (128 * (F64.unit : Int)) :=
+      ⟨rfl, by show ((128 * F64.unit : Nat) : Int) = _; push_cast; rfl⟩
+    apply h128.mul_exact ⟨hf, rfl⟩
+    · ring
+    · exact repI_mul_pow2_iff.2 hw.repI
+    · have hM : (2 : Int) ^ 1090 ≤ (maxFin : Int) := by exact_mod_cast maxFin_ge
+      rw [abs_mul, abs_of_pos (by positivity : (0 : Int) < 2 ^ 7)]
+      calc |z.hi.toInt| * 2 ^ 7 ≤ 2 ^ 1072 * 2 ^ 7 := by nlinarith
+        _ ≤ 2 ^ 1090 := by norm_num
+        _ ≤ _ := hM
+  apply round_trunc_cast _ 32 hm.1 _ (by decide)
+  show (F64.mul (f64lit 0x4060000000000000) z.hi).toInt.natAbs ≤ 32 * F64.unit
+  rw [hm.2, Int.natAbs_mul, unit_eq_4q]
+  have : ((2 : Int) ^ 7).natAbs = 128 := by decide
+  rw [this]
+  calc z.hi.toInt.natAbs * 128 ≤ 2 ^ 1072 * 128 := Nat.mul_le_mul_right _ hb
+    _ = 32 * (4 * 2 ^ 1072) := by ring
+
+/-- `exp2` is panic-free on EVERY argument: the exponent handed to `mul_pow2` is a saturating cast, and the loop of
+`mul_pow2` terminates within its fuel for every `i32` -/
+theorem exp2_pf (x : TwoFloat) : TwoFloat.exp2.pf x = true := by
+  unfold TwoFloat.exp2.pf
+  split_ifs
+  · rfl
+  · rfl
+  · dsimp only
+    split_ifs
+    · rfl
+    · rw [mul_pow2_pf _ _ (cast_f64_i32_inRange _), mul_pow2_pf _ _ (cast_f64_i32_inRange _)]; rfl
+
+/-- integer core of the argument reduction of `exp`: `R` is `2V` rounded to an integer (in units `U = 4Q`),
+`|V| ≤ 709`; then `R = kU` with `|k| ≤ 1418`, and `|V - R/2| ≤ 1/4` -/
+theorem exp_reduce_int {Q V R : Int} (hQ : 0 < Q) (hd : (4 * Q) ∣ R)
+    (hV : |V| ≤ 709 * (4 * Q))
+    (h1 : 0 ≤ 2 * V → 2 * R ≤ 2 * (2 * V) + 4 * Q ∧ 2 * (2 * V) < 2 * R + 4 * Q)
+    (h2 : 2 * V ≤ 0 → 2 * (2 * V) ≤ 2 * R + 4 * Q ∧ 2 * R < 2 * (2 * V) + 4 * Q) :
+    ∃ k : Int, R = k * (4 * Q) ∧ k.natAbs ≤ 1418 ∧ |V - k * (2 * Q)| ≤ Q := by
+  obtain ⟨k, hk⟩ := hd
+  refine ⟨k, by rw [hk]; ring, ?_, ?_⟩
+  · have hV' := abs_le.1 hV
+    have hb : -(1419 * (4 * Q)) < k * (4 * Q) ∧ k * (4 * Q) < 1419 * (4 * Q) := by
+      have e : k * (4 * Q) = R := by rw [hk]; ring
+      rw [e]
+      rcases le_total 0 (2 * V) with h | h
+      · have := h1 h; constructor <;> omega
+      · have := h2 h; constructor <;> omega
+    have hk1 : k < 1419 := lt_of_mul_lt_mul_right hb.2 (by omega)
+    have hk2 : -1419 < k := by
+      have : (-1419) * (4 * Q) < k * (4 * Q) := by linarith [hb.1]
+      exact lt_of_mul_lt_mul_right this (by omega)
+    omega
+  · have e : k * (2 * Q) * 2 = R := by rw [hk]; ring
+    rw [abs_le]
+    rcases le_total 0 (2 * V) with h | h
+    · have := h1 h; constructor <;> omega
+    · have := h2 h; constructor <;> omega
+
+theorem repI_two_pow (k : Nat) : RepI ((2 : Int) ^ k) := by
+  have : ((2 : Int) ^ k) = ((2 ^ k : Nat) : Int) := by push_cast; rfl
+  rw [this, repI_natCast]; exact rep_two_pow k
+
+theorem repI_small_mul_pow2 {k : Int} (m : Nat) (hk : k.natAbs < 2 ^ 53) : RepI (k * 2 ^ m) :=
+  repI_mul_pow2_iff.2 (rep_of_lt hk)
+
+theorem log2_two_pow_sub (n : Nat) : Nat.log2 (2 ^ (n + 52)) - 52 = n := by
+  rw [Nat.log2_two_pow]; omega
+
+/-- the argument reduction of `exp`: for a valid `x` with `|x.hi| < 709`, `y = round(2x)` is an integer `k`
+with `|k| ≤ 1418` held exactly in one word, and the high word of `z = x - y/2` is at most `1/4` in magnitude -/
+theorem exp_reduce (x : TwoFloat) (hv : x.Valid) (hw : x.WF)
+    (hlo : -(709 * (F64.unit : Int)) < x.hi.toInt) (hhi : x.hi.toInt < 709 * (F64.unit : Int)) :
+    let y := (TwoFloat.round (arithmetic.impl_Mul_TwoFloat_for_f64.mul (f64lit 0x4000000000000000) x)).hi
+    let z := arithmetic.impl_Sub_f64_for_TwoFloat.sub x (F64.div y (f64lit 0x4000000000000000))
+    (z.hi.is_finite = true ∧ z.hi.toInt.natAbs ≤ 2 ^ 1072) ∧
+      (∃ k : Int, y.is_finite = true ∧ y.toInt = k * ((F64.unit : Nat) : Int) ∧ k.natAbs ≤ 1418) := by
+  intro y z
+  -- scale: U = 4Q, Q = 2^1072 kept abstract so that the arithmetic below is linear
+  obtain ⟨Q, hQ⟩ : ∃ Q : Int, Q = 2 ^ 1072 := ⟨_, rfl⟩
+  have hUQ : (F64.unit : Int) = 4 * Q := by rw [hQ]; exact_mod_cast unit_eq_4q
+  have hQpos : (0 : Int) < Q := by rw [hQ]; positivity
+  have hQM : 262144 * Q ≤ (maxFin : Int) := by
+    have hM : (2 : Int) ^ 1090 ≤ (maxFin : Int) := by exact_mod_cast maxFin_ge
+    have : 262144 * Q = 2 ^ 1090 := by rw [hQ]; norm_num
+    rw [this]; exact hM
+  have hrepQ : RepI Q := by rw [hQ]; exact repI_two_pow 1072
+  have hrep4 : ∀ k : Int, k.natAbs < 2 ^ 53 → RepI (k * (4 * Q)) := fun k hk => by
+    have : k * (4 * Q) = k * 2 ^ 1074 := by rw [hQ]; ring
+    rw [this]; exact repI_small_mul_pow2 _ hk
+  have hrep2 : ∀ k : Int, k.natAbs < 2 ^ 53 → RepI (k * (2 * Q)) := fun k hk => by
+    have : k * (2 * Q) = k * 2 ^ 1073 := by rw [hQ]; ring
+    rw [this]; exact repI_small_mul_pow2 _ hk
+  have hQd : (2 : Int) ^ 1020 ∣ Q := by rw [hQ]; exact Dvd.intro_left (2 ^ 52) (by ring)
+  have hQ53 : 2 * Q = 2 ^ 53 * 2 ^ 1020 := by rw [hQ]; ring
+  have hQnat : Q.natAbs = 2 ^ (1020 + 52) := by rw [hQ, Int.natAbs_pow]; rfl
+  -- the two words of x
+  have hfix : x.hi.toInt = rnI x.V := hv.hi_toInt
+  have hVe : x.V = x.hi.toInt + x.lo.toInt := rfl
+  -- |V| ≤ 709 U
+  have hrep709 : RepI (709 * (4 * Q)) := hrep4 709 (by decide)
+  rw [hUQ] at hlo hhi
+  have hVb : |x.V| ≤ 709 * (4 * Q) := by
+    rw [abs_le]
+    constructor
+    · by_contra hc
+      have h1 : x.V ≤ -(709 * (4 * Q)) := by omega
+      have := rnI_mono h1
+      rw [rnI_of_repI hrep709.neg, ← hfix] at this
+      omega
+    · by_contra hc
+      have h1 : 709 * (4 * Q) ≤ x.V := by omega
+      have := rnI_mono h1
+      rw [rnI_of_repI hrep709, ← hfix] at this
+      omega
+  -- step A: t = 2 * x
+  have htwo : IsVal (f64lit 0x4000000000000000) (1 * 2 ^ 1 * (F64.unit : Int)) := by
+    rw [lit_two]
+    exact ⟨rfl, by show ((2 * F64.unit : Nat) : Int) = _; push_cast; ring⟩
+  have hov : x.hi.toInt.natAbs * 2 ^ 1 ≤ maxFin := by
+    have h2 : ((x.hi.toInt.natAbs * 2 ^ 1 : Nat) : Int) ≤ (maxFin : Int) := by
+      push_cast
+      rcases abs_cases x.hi.toInt with ⟨e, _⟩ | ⟨e, _⟩ <;> rw [e] <;> omega
+    exact_mod_cast h2
+  obtain ⟨e1, e2, hn⟩ := mul_up_data hv hw (Or.inl rfl) (vf := 1 * 2 ^ 1 * (F64.unit : Int)) (m := 1) rfl hov
+  have ht := mul_tf_isV_fixed (IsV.of_valid hv) htwo e1 e2 hn
+  obtain ⟨t1, t2, t3, tValid, tWF⟩ := ht.package (mul_tf_WF x _) hn.2.2.2.2
+  have hyt : y = (TwoFloat.round
+      (arithmetic.impl_Mul_rf64_for_rTwoFloat.mul x (f64lit 0x4000000000000000))).hi := rfl
+  generalize arithmetic.impl_Mul_rf64_for_rTwoFloat.mul x (f64lit 0x4000000000000000) = t at *
+  have htV : t.V = 2 * x.V := by rw [t3, hVe]; ring
+  -- step B: r = round t
+  obtain ⟨rV, rValid⟩ := C08.round_exact tValid tWF
+  have rWF := round_WF tWF
+  obtain ⟨hdvd, hr1, hr2⟩ := C08.roundV_spec t.V
+  have hUU : C08.U = 4 * Q := by unfold C08.U; exact hUQ
+  rw [htV, hUU] at hdvd hr1 hr2
+  obtain ⟨k, hk, hkb, hVW⟩ := exp_reduce_int hQpos hdvd hVb hr1 hr2
+  rw [htV] at rV
+  have hRrep : RepI (C08.roundV (2 * x.V)) := by rw [hk]; exact hrep4 k (by omega)
+  have hy : y.toInt = k * (4 * Q) := by
+    rw [hyt, rValid.hi_toInt, rV, rnI_of_repI hRrep, hk]
+  have hyf : y.is_finite = true := by rw [hyt]; exact rValid.1
+  refine ⟨?_, k, hyf, by rw [hy]; show _ = k * (F64.unit : Int); rw [hUQ], hkb⟩
+  -- step C: w = y / 2
+  have hkabs : |k| ≤ 1418 := by rw [← Int.natCast_natAbs]; exact_mod_cast hkb
+  have hWrep : RepI (k * (2 * Q)) := hrep2 k (by omega)
+  have hWb : |k * (2 * Q)| ≤ (maxFin : Int) := by
+    rw [abs_mul, abs_of_pos (by omega : (0 : Int) < 2 * Q)]
+    have : |k| * (2 * Q) ≤ 1418 * (2 * Q) := mul_le_mul_of_nonneg_right hkabs (by omega)
+    omega
+  have hw_val : IsVal (F64.div y (f64lit 0x4000000000000000)) (k * (2 * Q)) := by
+    apply IsVal.div_exact ⟨hyf, hy⟩ htwo
+    · rw [hUQ]; omega
+    · rw [hUQ]; ring
+    · exact hWrep
+    · exact hWb
+  have hwWF : (F64.div y (f64lit 0x4000000000000000)).WF := div_WF _ _
+  -- step D: z = x - w
+  generalize hW_def : k * (2 * Q) = W at *
+  generalize hh_def : x.hi.toInt = h at *
+  generalize hl_def : x.lo.toInt = l at *
+  have hSum : h - W + l = x.V - W := by rw [hVe]; ring
+  -- |l| ≤ Q
+  have hlb : |l| ≤ Q := by
+    have := rnI_nearest x.V hWrep
+    rw [← hfix] at this
+    have e : h - x.V = -l := by rw [hVe]; ring
+    rw [e, abs_neg, abs_sub_comm] at this
+    exact le_trans this hVW
+  have hSb : |h - W| ≤ 2 * Q := by
+    have e : h - W = (x.V - W) - l := by rw [hVe]; ring
+    rw [e]
+    calc |x.V - W - l| ≤ |x.V - W| + |l| := abs_sub _ _
+      _ ≤ _ := by linarith
+  have hhr : RepI h := by rw [← hh_def]; exact hw.1.repI
+  have hlr : RepI l := by rw [← hl_def]; exact hw.2.repI
+  have hlh : |l| ≤ |h| := by rw [← hh_def, ← hl_def]; exact hv.abs_lo_le
+  -- representability of S = h - W and the Fast2Sum divisibility condition
+  have hSrep_dvd : RepI (h - W) ∧ (2 : Int) ^ (Nat.log2 l.natAbs - 52) ∣ h - W := by
+    by_cases hk0 : k = 0
+    · have : W = 0 := by rw [← hW_def, hk0]; ring
+      rw [this, sub_zero]
+      exact ⟨hhr, hhr.ulp_dvd_of_le hlh⟩
+    · -- |W| ≥ 2Q, so |V| ≥ Q, so |h| ≥ Q and 2^1020 ∣ h
+      have hk1 : 1 ≤ |k| := Int.one_le_abs hk0
+      have hWge : 2 * Q ≤ |W| := by
+        rw [← hW_def, abs_mul, abs_of_pos (by omega : (0 : Int) < 2 * Q)]
+        have := mul_le_mul_of_nonneg_right hk1 (by omega : (0 : Int) ≤ 2 * Q)
+        omega
+      have hVge : |Q| ≤ |x.V| := by
+        rw [abs_of_pos hQpos]
+        rcases abs_cases W with ⟨e1, _⟩ | ⟨e1, _⟩ <;> rcases abs_cases x.V with ⟨e2, _⟩ | ⟨e2, _⟩ <;>
+          rcases abs_cases (x.V - W) with ⟨e3, _⟩ | ⟨e3, _⟩ <;> rw [e2] <;> rw [e1] at hWge <;>
+          rw [e3] at hVW <;> omega
+      have hhge : |Q| ≤ |h| := by rw [hfix]; exact le_abs_rnI hrepQ hVge
+      have hd1 : (2 : Int) ^ 1020 ∣ h := by
+        have := hhr.ulp_dvd_of_le hhge
+        rwa [hQnat, log2_two_pow_sub] at this
+      have hd2 : (2 : Int) ^ 1020 ∣ W := by
+        rw [← hW_def]
+        exact Dvd.dvd.mul_left (Dvd.dvd.mul_left hQd 2) k
+      have hd : (2 : Int) ^ 1020 ∣ h - W := dvd_sub hd1 hd2
+      refine ⟨rep_natAbs_of_dvd_of_le hd (by rw [← hQ53]; exact hSb), ?_⟩
+      refine dvd_trans (pow_dvd_pow 2 ?_) hd
+      apply log2_sub_le
+      have hcast : ((2 ^ 53 * 2 ^ 1020 : Nat) : Int) = 2 * Q := by rw [hQ53]; norm_cast
+      have h1 : ((l.natAbs : Nat) : Int) < ((2 ^ 53 * 2 ^ 1020 : Nat) : Int) := by
+        rw [hcast, Int.natCast_natAbs]; omega
+      exact_mod_cast h1
+  obtain ⟨hSrep, hSdvd⟩ := hSrep_dvd
+  have hSm : |h - W| ≤ (maxFin : Int) := by omega
+  have hlm : |l| ≤ (maxFin : Int) := by omega
+  have hzb : |rnI (h - W + l)| ≤ Q := by
+    rw [hSum]
+    have := abs_rnI_le hrepQ (v := x.V - W) (by rw [abs_of_pos hQpos]; exact hVW)
+    rwa [abs_of_pos hQpos] at this
+  have hov2 : |rnI (h - W + l)| ≤ (maxFin : Int) := by omega
+  obtain ⟨c2, c3⟩ := repI_rnI_add_sub_of_dvd hSrep hlr hSdvd hSm hlm hov2
+  have hxV : x.IsV h l := by rw [← hh_def, ← hl_def]; exact IsV.of_valid hv
+  have hz := sub_tf_isV hxV hw_val hw hwWF hSrep hSm hov2 c2 c3
+  refine ⟨hz.1.1, ?_⟩
+  show z.hi.toInt.natAbs ≤ 2 ^ 1072
+  have : z.hi.toInt = rnI (h - W + l) := hz.1.2
+  rw [this]
+  apply natAbs_le_of_abs_le
+  have : ((2 ^ 1072 : Nat) : Int) = Q := by rw [hQ]; push_cast
+  rw [this]; exact hzb
+
+theorem EXP_UPPER_val : explog.EXP_UPPER_LIMIT = fin false (709 * F64.unit) := by decide +kernel
+theorem EXP_LOWER_val : explog.EXP_LOWER_LIMIT = fin true (709 * F64.unit) := by decide +kernel
+
+/-- **C14p.** `exp` never panics on a valid argument -/
+theorem exp_pf (x : TwoFloat) (hv : x.Valid) (hw : x.WF) : TwoFloat.exp.pf x = true := by
+  unfold TwoFloat.exp.pf
+  split_ifs with c1 c2 c3 c4
+  · rfl
+  · rfl
+  · rfl
+  · rfl
+  · have hf := hv.1
+    have hlo : -(709 * (F64.unit : Int)) < x.hi.toInt := by
+      rw [rle_eq, EXP_LOWER_val, le_iff_toInt hf rfl] at c1
+      have : (fin true (709 * F64.unit)).toInt = -(709 * (F64.unit : Int)) := by
+        show -((709 * F64.unit : Nat) : Int) = _; push_cast; rfl
+      rw [this] at c1; omega
+    have hhi : x.hi.toInt < 709 * (F64.unit : Int) := by
+      rw [rge_eq', EXP_UPPER_val, ge_iff_toInt hf rfl] at c2
+      have : (fin false (709 * F64.unit)).toInt = 709 * (F64.unit : Int) := by
+        show ((709 * F64.unit : Nat) : Int) = _; push_cast; rfl
+      rw [this] at c2; omega
+    obtain ⟨⟨hzf, hzb⟩, k, hyf, hyk, hkb⟩ := exp_reduce x hv hw hlo hhi
+    show (TwoFloat.expm1_quarter.pf (arithmetic.impl_Sub_f64_for_TwoFloat.sub x
+        (F64.div (TwoFloat.round (arithmetic.impl_Mul_TwoFloat_for_f64.mul (f64lit 0x4000000000000000) x)).hi
+          (f64lit 0x4000000000000000)))
+      && explog.exp_half.pf (RCast.cast (TwoFloat.round
+        (arithmetic.impl_Mul_TwoFloat_for_f64.mul (f64lit 0x4000000000000000) x)).hi : I32)) = true
+    rw [expm1_quarter_pf _ hzf (sub_tf_WF _ _).1 hzb, Bool.true_and, cast_f64_i32 hyf hyk (by omega)]
+    exact exp_half_pf _ (by show k.natAbs ≤ 1439; omega)
+
+/-- the same for the invariant of C01 (valid, or a non-finite high word): this is the form in which
+intermediate results reach `exp` inside `ln`, `powf`, … -/
+theorem exp_pf_inv (x : TwoFloat) (hi : x.Inv) (hw : x.WF) : TwoFloat.exp.pf x = true := by
+  rcases hi with hv | hnf
+  · exact exp_pf x hv hw
+  · unfold TwoFloat.exp.pf
+    rcases x with ⟨hi, lo⟩
+    cases hi with
+    | nan => rfl
+    | inf s => cases s <;> rfl
+    | fin s n => exact absurd hnf (by simp [F64.is_finite])
+
+/-! ## Part 5: the invariant through the elementary functions -/
+
+/-- the invariant of C01 together with well-formedness: what every operator preserves -/
+def Good (t : TwoFloat) : Prop := t.Inv ∧ t.WF
+
+instance (t : TwoFloat) : Decidable t.Inv := by unfold TwoFloat.Inv; infer_instance
+instance (t : TwoFloat) : Decidable (Good t) := by unfold Good; infer_instance
+
+theorem Good.of_valid {t : TwoFloat} (hv : t.Valid) (hw : t.WF) : Good t := ⟨Or.inl hv, hw⟩
+
+theorem good_NAN : Good TwoFloat.NAN := by decide +kernel
+theorem good_default : Good (default : TwoFloat) := by decide +kernel
+theorem good_from {c : F64} (hc : c.WF) : Good (convert.impl_From_f64_for_TwoFloat.from c) := C01.from_inv hc
+theorem good_neg {t : TwoFloat} (h : Good t) : Good (arithmetic.impl_Neg_for_TwoFloat.neg t) :=
+  C01.neg_inv' h.2 h.1
+theorem good_abs {t : TwoFloat} (h : Good t) : Good (TwoFloat.abs t) := C01.abs_inv h.2 h.1
+theorem good_add_tt {a b : TwoFloat} (ha : Good a) (hb : Good b) :
+    Good (arithmetic.impl_Add_TwoFloat_for_TwoFloat.add a b) := C01.add_tt_inv ha.2 hb.2 ha.1 hb.1
+theorem good_sub_tt {a b : TwoFloat} (ha : Good a) (hb : Good b) :
+    Good (arithmetic.impl_Sub_TwoFloat_for_TwoFloat.sub a b) := C01.sub_tt_inv ha.2 hb.2 ha.1 hb.1
+theorem good_mul_tt {a b : TwoFloat} (ha : Good a) (hb : Good b) :
+    Good (arithmetic.impl_Mul_TwoFloat_for_TwoFloat.mul a b) := C01.mul_tt_inv ha.1 hb.1
+theorem good_add_tf {a : TwoFloat} {c : F64} (ha : Good a) (hc : c.WF) :
+    Good (arithmetic.impl_Add_f64_for_TwoFloat.add a c) := C01.add_tf_f64_inv c ha.2 hc ha.1
+theorem good_sub_tf {a : TwoFloat} {c : F64} (ha : Good a) (hc : c.WF) :
+    Good (arithmetic.impl_Sub_f64_for_TwoFloat.sub a c) := C01.sub_tf_f64_inv c ha.2 hc ha.1
+theorem good_mul_tf {a : TwoFloat} (c : F64) (ha : Good a) :
+    Good (arithmetic.impl_Mul_f64_for_TwoFloat.mul a c) := C01.mul_tf_f64_inv c ha.1
+theorem good_mul_ft {a : TwoFloat} (c : F64) (ha : Good a) :
+    Good (arithmetic.impl_Mul_TwoFloat_for_f64.mul c a) := C01.mul_f64_tf_inv c ha.1
+theorem good_add_assign_tt {a b : TwoFloat} (ha : Good a) (hb : Good b) :
+    Good (arithmetic.impl_AddAssign_TwoFloat_for_TwoFloat.add_assign a b) := C01.add_tt_inv ha.2 hb.2 ha.1 hb.1
+theorem good_sub_assign_tt {a b : TwoFloat} (ha : Good a) (hb : Good b) :
+    Good (arithmetic.impl_SubAssign_TwoFloat_for_TwoFloat.sub_assign a b) := C01.sub_tt_inv ha.2 hb.2 ha.1 hb.1
+
+theorem good_ite (c : Prop) [Decidable c] {a b : TwoFloat} (ha : Good a) (hb : Good b) :
+    Good (if c then a else b) := by split_ifs <;> assumption
+
+/-- table lookups: an entry of the table or (out of bounds — excluded by the `.pf` predicates) the default -/
+theorem good_index {s : Bool} {b : Nat} (l : List TwoFloat) (hl : ∀ t ∈ l, Good t) (i : IntN s b) :
+    Good (RIndex.index l i) := by
+  show Good (l.getD i.v.toNat default)
+  rw [List.getD_eq_getElem?_getD]
+  cases h : l[i.v.toNat]? with
+  | none => exact good_default
+  | some t => exact hl t (List.mem_of_getElem? h)
+
+/-- Horner evaluation `polynomial!(y, table)` -/
+theorem good_polyFold (l : List TwoFloat) (hl : ∀ t ∈ l, Good t) {y : TwoFloat} (hy : Good y) :
+    Good (polyFold l (fun a n => arithmetic.impl_Add_rTwoFloat_for_TwoFloat.add
+      (arithmetic.impl_Mul_TwoFloat_for_TwoFloat.mul y a) n)) := by
+  unfold polyFold
+  have hr : ∀ t ∈ l.reverse, Good t := fun t ht => hl t (List.mem_reverse.1 ht)
+  generalize l.reverse = r at hr
+  cases r with
+  | nil => exact good_default
+  | cons init rest =>
+    show Good (rest.foldl _ init)
+    have hi : Good init := hr init (List.mem_cons_self ..)
+    have hrest : ∀ t ∈ rest, Good t := fun t ht => hr t (List.mem_cons_of_mem _ ht)
+    clear hr
+    induction rest generalizing init with
+    | nil => exact hi
+    | cons t rest ih =>
+      rw [List.foldl_cons]
+      apply ih
+      · exact good_add_tt (good_mul_tt hy hi) (hrest t (List.mem_cons_self ..))
+      · exact fun u hu => hrest u (List.mem_cons_of_mem _ hu)
+
+theorem FRAC_FACT_good : ∀ t ∈ explog.FRAC_FACT, Good t := by decide +kernel
+theorem EXPM1_128TH_good : ∀ t ∈ explog.expm1_128th.EXPM1_128TH, Good t := by decide +kernel
+theorem EXP_HALF_N_good : ∀ t ∈ explog.exp_half.EXP_HALF_N, Good t := by decide +kernel
+theorem EXP_16_N_good : ∀ t ∈ explog.exp_half.EXP_16_N, Good t := by decide +kernel
+
+theorem lit_one_WF : (f64lit 0x3ff0000000000000).WF := by decide +kernel
+
+/-- `expm1_quarter` preserves the invariant (on every argument satisfying it) -/
+theorem good_expm1_quarter {z : TwoFloat} (hz : Good z) : Good (TwoFloat.expm1_quarter z) := by
+  unfold TwoFloat.expm1_quarter
+  dsimp only
+  have hy := good_sub_tf hz (div_WF (F64.round (f64lit 0x4060000000000000 *. TwoFloat.hi_m z))
+    (f64lit 0x4060000000000000))
+  have hp := good_polyFold (List.take 13 (List.drop 2 explog.FRAC_FACT))
+    (fun t ht => FRAC_FACT_good t (List.mem_of_mem_drop (List.mem_of_mem_take ht))) hy
+  exact good_add_tt (good_index _ EXPM1_128TH_good _)
+    (good_mul_tt (good_add_tf (good_index _ EXPM1_128TH_good _) lit_one_WF)
+      (good_mul_tt hy (good_add_tf (good_mul_tt hy hp) lit_one_WF)))
+
+theorem good_from_i32_one : Good (convert.impl_From_i32_for_TwoFloat.from (1 : I32)) := by decide +kernel
+
+/-- `exp_half` on a non-negative argument: a table entry, a product of two, or 1 -/
+theorem good_exp_half_go_nonneg (fuel : Nat) (v : Int) (h0 : 0 ≤ v) :
+    Good (explog.exp_half.go (fuel + 1) (⟨v⟩ : I32)) := by
+  simp only [explog.exp_half.go]
+  have hneg : (⟨v⟩ : I32).is_negative = false := by
+    show decide (v < 0) = false
+    simp; omega
+  rw [hneg]
+  simp only [Bool.false_eq_true, if_false]
+  generalize (RCast.cast ((⟨v⟩ : I32) /. (32 : I32)) : Usize) = a
+  generalize (RCast.cast ((⟨v⟩ : I32) %. (32 : I32)) : Usize) = b
+  cases (a >. (0 : Usize)) <;> cases (b >. (0 : Usize))
+  · exact good_from_i32_one
+  · exact good_index _ EXP_HALF_N_good _
+  · exact good_index _ EXP_16_N_good _
+  · exact good_mul_tt (good_index _ EXP_16_N_good _) (good_index _ EXP_HALF_N_good _)
+
+/-- The one fact about this family that is not derived here: the reciprocals `1.0 / exp_half(m)`, `1 ≤ m ≤ 1439`,
+taken by `exp_half` on negative arguments, satisfy the invariant.  It is a CLOSED finite statement (1439 kernel
+evaluations of about 1.3 s each; `TwoFloat / TwoFloat` and `f64 / TwoFloat` are the operators whose invariant is
+open in C01).  Samples are evaluated in `C14p`. -/
+def ExpHalfRecipInv : Prop :=
+  ∀ m : Int, 1 ≤ m → m ≤ 1439 →
+    (arithmetic.impl_Div_TwoFloat_for_f64.div (f64lit 0x3ff0000000000000)
+      (explog.exp_half.go 1 (⟨m⟩ : I32))).Inv
+
+theorem good_exp_half (HR : ExpHalfRecipInv) (n : I32) (h : n.v.natAbs ≤ 1439) : Good (explog.exp_half n) := by
+  obtain ⟨v⟩ := n
+  have h' : v.natAbs ≤ 1439 := h
+  by_cases hv : 0 ≤ v
+  · exact good_exp_half_go_nonneg 1 v hv
+  · show Good (explog.exp_half.go 2 (⟨v⟩ : I32))
+    simp only [explog.exp_half.go]
+    have hneg : (⟨v⟩ : I32).is_negative = true := by
+      show decide (v < 0) = true
+      simp; omega
+    rw [hneg]
+    simp only [if_true]
+    exact ⟨HR (-v) (by omega) (by omega), div_ft_WF _ _⟩
+
+/-- `exp` preserves the invariant -/
+theorem good_exp (HR : ExpHalfRecipInv) {x : TwoFloat} (hx : Good x) : Good (TwoFloat.exp x) := by
+  unfold TwoFloat.exp
+  split_ifs with c1 c2 c3 c4
+  · exact good_from f64lit_WF_zero
+  · exact ⟨Or.inr rfl, trivial, f64lit_WF_zero⟩
+  · exact good_from lit_one_WF
+  · exact good_NAN
+  · have hf : x.hi.is_finite = true := by
+      rcases x with ⟨hi, lo⟩
+      cases hi with
+      | nan => exact absurd rfl c4
+      | inf s => cases s
+                 · exact absurd (show ((inf false) >=. explog.EXP_UPPER_LIMIT) = true by decide +kernel) c2
+                 · exact absurd (show ((inf true) <=. explog.EXP_LOWER_LIMIT) = true by decide +kernel) c1
+      | fin s n => rfl
+    have hv : x.Valid := by
+      rcases hx.1 with h | h
+      · exact h
+      · rw [hf] at h; cases h
+    have hlo : -(709 * (F64.unit : Int)) < x.hi.toInt := by
+      rw [rle_eq, EXP_LOWER_val, le_iff_toInt hf rfl] at c1
+      have : (fin true (709 * F64.unit)).toInt = -(709 * (F64.unit : Int)) := by
+        show -((709 * F64.unit : Nat) : Int) = _; push_cast; rfl
+      rw [this] at c1; omega
+    have hhi : x.hi.toInt < 709 * (F64.unit : Int) := by
+      rw [rge_eq', EXP_UPPER_val, ge_iff_toInt hf rfl] at c2
+      have : (fin false (709 * F64.unit)).toInt = 709 * (F64.unit : Int) := by
+        show ((709 * F64.unit : Nat) : Int) = _; push_cast; rfl
+      rw [this] at c2; omega
+    obtain ⟨-, k, hyf, hyk, hkb⟩ := exp_reduce x hv hx.2 hlo hhi
+    dsimp only
+    apply good_mul_tt
+    · exact good_add_tf (good_expm1_quarter (good_sub_tf hx (div_WF _ _))) lit_one_WF
+    · show Good (explog.exp_half (RCast.cast (TwoFloat.round
+        (arithmetic.impl_Mul_TwoFloat_for_f64.mul (f64lit 0x4000000000000000) x)).hi : I32))
+      rw [cast_f64_i32 hyf hyk (by omega)]
+      exact good_exp_half HR _ (by show k.natAbs ≤ 1439; omega)
+
+/-! ## Part 6: logarithms -/
+
+theorem libm_log_go_WF (k : Int) (ui : Nat) : (Libm.log.go k ui).WF := add_WF _ _
+theorem libm_log_WF {x : F64} (hx : x.WF) : (Libm.log x).WF := by
+  unfold Libm.log
+  dsimp only
+  split_ifs
+  · exact div_WF _ _
+  · exact div_WF _ _
+  · exact libm_log_go_WF _ _
+  · exact hx
+  · decide +kernel
+  · exact libm_log_go_WF _ _
+
+theorem libm_log2_go_WF (k : Int) (ui : Nat) : (Libm.log2.go k ui).WF := add_WF _ _
+theorem libm_log2_WF {x : F64} (hx : x.WF) : (Libm.log2 x).WF := by
+  unfold Libm.log2
+  dsimp only
+  split_ifs
+  · exact div_WF _ _
+  · exact div_WF _ _
+  · exact libm_log2_go_WF _ _
+  · exact hx
+  · decide +kernel
+  · exact libm_log2_go_WF _ _
+
+theorem libm_log1p_tail_WF (k : Int) (c f : F64) : (Libm.log1p.tail k c f).WF := add_WF _ _
+theorem libm_log1p_WF {x : F64} (hx : x.WF) : (Libm.log1p x).WF := by
+  unfold Libm.log1p
+  dsimp only
+  split_ifs
+  all_goals first
+    | exact div_WF _ _
+    | exact hx
+    | exact libm_log1p_tail_WF _ _ _
+
+theorem exp_pf_good {x : TwoFloat} (hx : Good x) : TwoFloat.exp.pf x = true := exp_pf_inv x hx.1 hx.2
+
+/-- one Newton step of `ln`: `a + (x * exp(-a) - 1)` -/
+theorem good_ln_step (HR : ExpHalfRecipInv) {x a : TwoFloat} (hx : Good x) (ha : Good a) :
+    Good (arithmetic.impl_AddAssign_TwoFloat_for_TwoFloat.add_assign a
+      (arithmetic.impl_Sub_f64_for_TwoFloat.sub
+        (arithmetic.impl_Mul_TwoFloat_for_TwoFloat.mul x (TwoFloat.exp (arithmetic.impl_Neg_for_TwoFloat.neg a)))
+        (f64lit 0x3ff0000000000000))) :=
+  good_add_assign_tt ha (good_sub_tf (good_mul_tt hx (good_exp HR (good_neg ha))) lit_one_WF)
+
+/-- **`ln` is panic-free** on every argument satisfying the invariant (given `ExpHalfRecipInv`) -/
+theorem ln_pf (HR : ExpHalfRecipInv) (x : TwoFloat) (hx : Good x) : TwoFloat.ln.pf x = true := by
+  unfold TwoFloat.ln.pf
+  split_ifs
+  · rfl
+  · rfl
+  · dsimp only
+    have h0 : Good (convert.impl_From_f64_for_TwoFloat.from (Libm.log x.hi)) := good_from (libm_log_WF hx.2.1)
+    have h1 := good_ln_step HR hx h0
+    have h2 := good_ln_step HR hx h1
+    rw [exp_pf_good (good_neg h0), exp_pf_good (good_neg h1), exp_pf_good (good_neg h2)]
+    rfl
+
+theorem good_ln (HR : ExpHalfRecipInv) {x : TwoFloat} (hx : Good x) : Good (TwoFloat.ln x) := by
+  unfold TwoFloat.ln
+  split_ifs
+  · exact good_from f64lit_WF_zero
+  · exact good_NAN
+  · dsimp only
+    have h0 : Good (convert.impl_From_f64_for_TwoFloat.from (Libm.log x.hi)) := good_from (libm_log_WF hx.2.1)
+    have h1 := good_ln_step HR hx h0
+    have h2 := good_ln_step HR hx h1
+    exact good_sub_tf (good_add_tt h2 (good_mul_tt hx (good_exp HR (good_neg h2)))) lit_one_WF
+
+theorem log_pf (HR : ExpHalfRecipInv) (x b : TwoFloat) (hx : Good x) (hb : Good b) :
+    TwoFloat.log.pf x b = true := by
+  unfold TwoFloat.log.pf; rw [ln_pf HR x hx, ln_pf HR b hb]; rfl
+
+theorem log10_pf (HR : ExpHalfRecipInv) (x : TwoFloat) (hx : Good x) : TwoFloat.log10.pf x = true :=
+  ln_pf HR x hx
+
+/-- `log2` is panic-free on EVERY argument (it only calls `exp2`) -/
+theorem log2_pf (x : TwoFloat) : TwoFloat.log2.pf x = true := by
+  unfold TwoFloat.log2.pf
+  split_ifs
+  · rfl
+  · rfl
+  · dsimp only
+    rw [exp2_pf, exp2_pf]; rfl
+
+/-- `exp_m1` -/
+theorem exp_m1_pf (x : TwoFloat) (hx : Good x) : TwoFloat.exp_m1.pf x = true := by
+  unfold TwoFloat.exp_m1.pf
+  rw [tcmp_pf hx.2 (neg_WF LN_2_WF), tcmp_pf hx.2 LN_FRAC_3_2_WF, exp_pf_good hx]
+  simp
+
+
+/-! ## Part 7: hyperbolic functions and `powf` -/
+
+theorem cosh_pf (x : TwoFloat) (hx : Good x) : TwoFloat.cosh.pf x = true := by
+  unfold TwoFloat.cosh.pf
+  rw [exp_pf_good hx, exp_pf_good (good_neg hx)]; rfl
+
+theorem sinh_pf (x : TwoFloat) (hx : Good x) : TwoFloat.sinh.pf x = true := cosh_pf x hx
+
+theorem tanh_pf (x : TwoFloat) (hx : Good x) : TwoFloat.tanh.pf x = true := by
+  unfold TwoFloat.tanh.pf
+  rw [exp_pf_good hx, exp_pf_good (good_neg hx)]; rfl
+
+/-- `powf`: `ln` of the base (or of its absolute value) and `exp` of the product -/
+theorem powf_pf (HR : ExpHalfRecipInv) (x y : TwoFloat) (hx : Good x) (hy : Good y) :
+    TwoFloat.powf.pf x y = true := by
+  unfold TwoFloat.powf.pf
+  cases base.impl_PartialEq_f64_for_TwoFloat.eq x (f64lit 0x0000000000000000) <;>
+  cases base.impl_PartialEq_f64_for_TwoFloat.eq y (f64lit 0x0000000000000000) <;>
+  dsimp only
+  split_ifs
+  · rw [ln_pf HR x hx, exp_pf_good (good_mul_tt hy (good_ln HR hx))]; rfl
+  · rfl
+  · rw [ln_pf HR _ (good_abs hx), exp_pf_good (good_mul_tt hy (good_ln HR (good_abs hx)))]; rfl
 
 end PF
